@@ -4,6 +4,10 @@ import json as _json
 
 from symcheck.env import drive, dump, same_json, HarnessError
 from harness.stdio_fake import make_client, STDIO
+from harness import sizes as _sizes
+
+_sizes.size_cases(70000, extra=_sizes.ENV_SIZES)
+_sizes.size_cases(140000, extra=_sizes.ENV_SIZES)
 
 JM = importlib.import_module("chuk_mcp.protocol.messages.json_rpc_message")
 
@@ -149,9 +153,22 @@ def _run_writer(objs):
 
 def writer(kinds, sels):
     """sequence of outbound items: kinds and payload selectors (decoded by if-chains)"""
+    return writer_payloads(kinds, [pick_payload(x) for x in sels])
+
+
+def writer_long(kind, k, pat, lim=70000):
+    """size dimension: one message whose payload has c-1, c or c+1 characters (c: every integer constant of the
+    source tree, plus environment sizes), followed by a small one (a cut line would glue them together)"""
+    from harness.sizes import size_cases, pick, long_text, ENV_SIZES
+
+    n = pick(size_cases(lim, extra=ENV_SIZES), k)
+    return writer_payloads((kind, K_NOTIF), [long_text(n, pat), "after"])
+
+
+def writer_payloads(kinds, payloads):
     objs, exps = [], []
     for i in range(len(kinds)):
-        o, e = item(kinds[i], i, pick_payload(sels[i]))
+        o, e = item(kinds[i], i, payloads[i])
         objs.append(o)
         if e is not None:
             exps.append(e)
